@@ -6,10 +6,32 @@ use crate::common::*;
 use crate::docgen::*;
 use crate::tree::*;
 
+/// token range of one randomly chosen child element (block or keyword, below PROJECT level or PROJECT's own children)
+fn pick_element(toks: &[GTok], rng: &mut Rng) -> Option<(usize, usize)> {
+    let cand: Vec<usize> = (0..toks.len())
+        .filter(|&i| toks[i].role == Role::Tag && !toks[i].elem.is_empty() && toks[i].depth >= 1 && !(i > 0 && toks[i - 1].role == Role::End))
+        .collect();
+    if cand.is_empty() {
+        return None;
+    }
+    let i = cand[rng.below(cand.len())];
+    let d = toks[i].depth;
+    if i > 0 && toks[i - 1].role == Role::Begin {
+        let j = (i + 1..toks.len()).find(|&j| toks[j].role == Role::End && toks[j].depth == d)?;
+        Some((i - 1, (j + 2).min(toks.len())))
+    } else {
+        let mut j = i + 1;
+        while j < toks.len() && toks[j].role == Role::Param && toks[j].depth == d {
+            j += 1;
+        }
+        Some((i, j))
+    }
+}
+
 pub fn run(args: &Args) -> Report {
     let mut rep = Report::new(
         "C20",
-        "documents from the grammar (all versions, 3 layouts), their single-token mutations and truncations, strict and non-strict: transcript = status, diagnostics with lines, written text. non-trivial = input with >= 10 tokens; distinct = distinct (text, mode)",
+        "documents from the grammar (all versions, 3 layouts), their single-token mutations, truncations and structural deviations (one child element removed / doubled, PROJECT without MODULE), strict and non-strict: transcript = status, diagnostics with lines, written text. non-trivial = input with >= 10 tokens; distinct = distinct (text, mode)",
     );
     let g = match Grammar::load() {
         Ok(g) => g,
@@ -43,7 +65,28 @@ pub fn run(args: &Args) -> Report {
                     texts.push(p);
                 }
             }
+            if d % 3 == 1 {
+                // structural deviations: one whole child element removed (a required one: multiplicity diagnostics, e.g. a
+                // PROJECT without MODULE) or doubled (a single one: too-many diagnostics)
+                for k in 0..4 {
+                    if let Some((a, b)) = pick_element(&toks, &mut rng) {
+                        let mut t2 = toks.clone();
+                        if k % 2 == 0 {
+                            t2.drain(a..b);
+                        } else {
+                            let part: Vec<GTok> = toks[a..b].to_vec();
+                            t2.splice(b..b, part);
+                        }
+                        texts.push(render(&t2, &mut rng, Layout::Canonical, false));
+                    }
+                }
+            }
             texts.push(text);
+        }
+        // the smallest documents of that kind, fixed
+        for v in ["1 71", "1 60"] {
+            texts.push(format!("ASAP2_VERSION {v}\n/begin PROJECT p \"\"\n/end PROJECT\n"));
+            texts.push(format!("ASAP2_VERSION {v}\n/begin PROJECT p \"\"\n/begin HEADER \"\" /end HEADER\n/begin HEADER \"\" /end HEADER\n/begin MODULE m \"\" /end MODULE\n/end PROJECT\n"));
         }
     }
     for (i, text) in texts.iter().enumerate() {
